@@ -18,7 +18,7 @@ import (
 // typeNameRule: ImportNames.TypeName renders every type shape as documented.
 func (c *Ctx) typeNameRule(rule string) {
 	r := c.R
-	r.Rule(rule, "ImportNames.TypeName(t): *T → \"*\"+TypeName(T); basic → its name; named without package (universe) → bare name; named whose package path is in the import table under a name other than \".\" → <table name>.<Name>; other named (own package, dot-imported) → bare name; anything else → types.TypeString with a qualifier that answers the table name for imported paths and \"\" otherwise; IsExternal(t) ⇔ named ∧ package path in the table")
+	r.Rule(rule, "ImportNames.TypeName(t): *T → \"*\"+TypeName(T); basic → its name, except unsafe.Pointer → <table name of unsafe>.Pointer (bare under a dot import, `unsafe.Pointer` when the table lacks it); named types carry their type arguments, each rendered by TypeName, in brackets; named without package (universe) → bare name; named whose package path is in the import table under a name other than \".\" → <table name>.<Name>; other named (own package, dot-imported) → bare name; anything else → types.TypeString with a qualifier that answers the table name for imported paths and \"\" otherwise; IsExternal(t) ⇔ named ∧ package path in the table")
 	fn := c.MustMethod(rule, "/pkg/util", "ImportNames", "TypeName")
 	if fn == nil {
 		return
@@ -34,6 +34,21 @@ func (c *Ctx) typeNameRule(rule string) {
 	}
 	pkgOfObj := func(t *core.Term) bool {
 		return t.Kind == "call" && strings.HasSuffix(t.Name, ").Pkg") && t.Contains(func(s *core.Term) bool { return s.IsCallTo("(*go/types.Named).Obj") })
+	}
+	// typeArgsOf: a call of a module function that renders Named.TypeArgs() of the judged type ("" when there are none)
+	typeArgsOf := func(t *core.Term) bool {
+		if t == nil || t.Kind != "call" || !t.Contains(func(s *core.Term) bool {
+			return s.Kind == "extract" && s.Name == "0" && s.Args[0].Kind == "typeassert,ok" && s.Args[0].Name == "*types.Named" && s.Args[0].Args[0].String() == tparam
+		}) {
+			return false
+		}
+		for _, f := range c.P.Funcs() {
+			if f.String() != t.Name && core.FuncName(f) != t.Name {
+				continue
+			}
+			return c.typeArgsRenderer(rule, f)
+		}
+		return false
 	}
 	tableLookup := func(t *core.Term) bool { // imports[Obj().Pkg().Path()]
 		return (t.Kind == "lookup,ok" || t.Kind == "lookup") && t.Args[1].IsCallTo("(*go/types.Package).Path") && pkgOfObj(t.Args[1].Args[0])
@@ -57,7 +72,34 @@ func (c *Ctx) typeNameRule(rule string) {
 			r.Check(rule, k+":pointer", c.InstrPos(ret), ok, "a pointer type must render as \"*\" + TypeName(elem), got "+t.String())
 		case d.Implies(c.M(true, assert("*types.Basic"))):
 			seen["basic"] = true
-			r.Check(rule, k+":basic", c.InstrPos(ret), t.IsCallTo("(*go/types.Basic).Name"), "a basic type must render as its name, got "+t.String())
+			// unsafe.Pointer is the one basic type that lives in a package: its bare name does not denote it
+			unsafeKind := func(x *core.Term) bool {
+				return x.Kind == "binop" && x.Name == "==" && ((x.Args[0].IsCallTo("(*go/types.Basic).Kind") && x.Args[1].Is("const", "18")) || (x.Args[1].IsCallTo("(*go/types.Basic).Kind") && x.Args[0].Is("const", "18")))
+			}
+			unsafeEntry := func(x *core.Term) bool {
+				return (x.Kind == "lookup,ok" || x.Kind == "lookup") && x.Args[1].Is("const", `"unsafe"`)
+			}
+			isUnsafeName := func(x *core.Term) bool { return x.Kind == "extract" && x.Name == "0" && unsafeEntry(x.Args[0]) }
+			foundUnsafe := func(x *core.Term) bool { return x.Kind == "extract" && x.Name == "1" && unsafeEntry(x.Args[0]) }
+			basicName := func(x *core.Term) bool { return x.IsCallTo("(*go/types.Basic).Name") }
+			switch {
+			case d.Implies(c.M(false, unsafeKind)):
+				r.Check(rule, k+":basic", c.InstrPos(ret), basicName(t), "a basic type must render as its name, got "+t.String())
+			case d.Implies(c.M(true, unsafeKind)):
+				seen["unsafe"] = true
+				var ok bool
+				switch {
+				case d.Implies(c.M(true, foundUnsafe)) && d.Implies(c.M(true, eqConst(isUnsafeName, `"."`))):
+					ok = basicName(t) // dot-imported
+				case d.Implies(c.M(true, foundUnsafe)):
+					ok = d.Implies(c.M(false, eqConst(isUnsafeName, `"."`))) && t.Kind == "binop" && t.Contains(isUnsafeName) && t.Contains(func(s *core.Term) bool { return s.Is("const", `"."`) }) && t.Contains(basicName)
+				case d.Implies(c.M(false, foundUnsafe)):
+					ok = t.Kind == "binop" && t.Args[0].Is("const", `"unsafe."`) && basicName(t.Args[1])
+				}
+				r.Check(rule, k+":unsafe-pointer", c.InstrPos(ret), ok, "unsafe.Pointer must render as <name of \"unsafe\" in the import table>.Pointer (bare under a dot import, unsafe.Pointer when the table lacks it), got "+t.String())
+			default:
+				r.Check(rule, k+":basic:unsafe-pointer-qualified", c.InstrPos(ret), false, "every basic type is rendered as its bare name: unsafe.Pointer becomes `Pointer`, which is undefined in the generated file; reach: "+d.Describe(c.O))
+			}
 		case d.Implies(c.M(true, assert("*types.Named"))):
 			switch {
 			case d.Implies(c.M(true, isNilCmp(pkgOfObj))):
@@ -67,7 +109,14 @@ func (c *Ctx) typeNameRule(rule string) {
 				seen["imported"] = true
 				r.Check(rule, k+":imported:not-dot", c.InstrPos(ret), d.Implies(notDot), "a type of a dot-imported package (table name \".\") is rendered with the table name as qualifier: `..T` does not parse")
 				ok := false
-				if t.IsCallTo("fmt.Sprintf") && t.Args[0].Is("const", `"%v.%v"`) {
+				if t.IsCallTo("fmt.Sprintf") && t.Args[0].Is("const", `"%v.%v%v"`) {
+					a0 := c.varargAt(ret.Results[0].(*ssa.Call).Call.Args[1], 0)
+					a1 := c.varargAt(ret.Results[0].(*ssa.Call).Call.Args[1], 1)
+					a2 := c.varargAt(ret.Results[0].(*ssa.Call).Call.Args[1], 2)
+					ok = a0 != nil && a1 != nil && a2 != nil && a0.Kind == "extract" && a0.Name == "0" && tableLookup(a0.Args[0]) && objName(a1) && typeArgsOf(a2)
+					r.Check(rule, k+":imported:type-arguments", c.InstrPos(ret), a2 != nil && typeArgsOf(a2), "the type arguments of an instantiated generic type are not rendered")
+				} else if t.IsCallTo("fmt.Sprintf") && t.Args[0].Is("const", `"%v.%v"`) {
+					r.Check(rule, k+":imported:type-arguments", c.InstrPos(ret), false, "a named type is rendered as <qualifier>.<name> without its type arguments: `ext.Box` does not denote ext.Box[int] (`make([]ext.Box, …)` does not compile)")
 					a0 := c.varargAt(ret.Results[0].(*ssa.Call).Call.Args[1], 0)
 					a1 := c.varargAt(ret.Results[0].(*ssa.Call).Call.Args[1], 1)
 					ok = a0 != nil && a1 != nil && a0.Kind == "extract" && a0.Name == "0" && tableLookup(a0.Args[0]) && objName(a1)
@@ -77,7 +126,12 @@ func (c *Ctx) typeNameRule(rule string) {
 				r.Check(rule, k+":imported", c.InstrPos(ret), ok, "a named type of an imported package must render as <name in the import table>.<type name>, got "+t.String())
 			default:
 				seen["local"] = true
-				r.Check(rule, k+":local", c.InstrPos(ret), objName(t) && d.Implies(c.M(false, func(x *core.Term) bool { return x.Kind == "extract" && x.Name == "1" && tableLookup(x.Args[0]) }), dot),
+				bare := objName(t)
+				if t.Kind == "binop" && t.Name == "+" && objName(t.Args[0]) {
+					bare = typeArgsOf(t.Args[1])
+				}
+				r.Check(rule, k+":local:type-arguments", c.InstrPos(ret), t.Kind == "binop" && t.Name == "+" && typeArgsOf(t.Args[1]), "a named type is rendered by its bare name without its type arguments: `Box` does not denote Box[int] (`make([]Box, …)` does not compile)")
+				r.Check(rule, k+":local", c.InstrPos(ret), bare && d.Implies(c.M(false, func(x *core.Term) bool { return x.Kind == "extract" && x.Name == "1" && tableLookup(x.Args[0]) }), dot),
 					"a named type whose package is not in the import table, or is dot-imported, must render as its bare name (only on the not-found edge of the table lookup or for the table name \".\"), got "+t.String())
 			}
 		default:
@@ -139,6 +193,50 @@ func (c *Ctx) typeNameRule(rule string) {
 		}
 		r.Check(rule, FnKey(ie)+":true⇒path-in-table", c.Pos(ie.Pos()), okT, "IsExternal must answer whether the type's package path is in the import table")
 	}
+}
+
+// typeArgsRenderer: f(named) answers "" iff the type has no type arguments and otherwise "[" + the arguments, each rendered
+// by TypeName, joined by ", " + "]".
+func (c *Ctx) typeArgsRenderer(rule string, f *ssa.Function) bool {
+	if c.typeArgsChecked == nil {
+		c.typeArgsChecked = map[*ssa.Function]bool{}
+	}
+	if v, ok := c.typeArgsChecked[f]; ok {
+		return v
+	}
+	r := c.R
+	lenArgs := func(x *core.Term) bool {
+		return x.Kind == "call" && strings.HasSuffix(x.Name, "TypeList).Len") && x.Contains(func(s *core.Term) bool { return s.IsCallTo("(*go/types.Named).TypeArgs") })
+	}
+	okEmpty, okList := false, false
+	for _, ret := range core.Returns(f) {
+		t := c.O.Of(ret.Results[0])
+		d := c.ReachOf(ret)
+		switch {
+		case t.Is("const", `""`):
+			okEmpty = d.Implies(c.exactly(lenArgs, 0))
+		default:
+			join := t.Find(func(s *core.Term) bool { return s.IsCallTo("strings.Join") })
+			okList = t.Kind == "binop" && join != nil && join.Args[1].Is("const", `", "`) &&
+				t.Contains(func(s *core.Term) bool { return s.Is("const", `"["`) }) && t.Contains(func(s *core.Term) bool { return s.Is("const", `"]"`) })
+			// every element of the joined list is TypeName(args.At(n))
+			elem := false
+			for _, b := range f.Blocks {
+				for _, in := range b.Instrs {
+					if st, ok := in.(*ssa.Store); ok {
+						v := c.O.Of(st.Val)
+						if v.IsCallTo("("+pUtil+"ImportNames).TypeName") && v.Args[1].Kind == "call" && strings.HasSuffix(v.Args[1].Name, "TypeList).At") {
+							elem = true
+						}
+					}
+				}
+			}
+			okList = okList && elem
+		}
+	}
+	r.Check(rule, FnKey(f)+":type-argument-list", c.Pos(f.Pos()), okEmpty && okList, "the type argument renderer must answer \"\" iff TypeArgs().Len() == 0 and otherwise \"[\" + TypeName of every argument joined by \", \" + \"]\"")
+	c.typeArgsChecked[f] = okEmpty && okList
+	return okEmpty && okList
 }
 
 // importTableRule: NewImportNames fills the table as documented.
